@@ -306,6 +306,60 @@ class Theorem(Axiom):
             res['num_gaps'] = self.num_gaps
         return res
 
+def types_overlap(T1, T2):
+    """Whether the two types have a common instance (the type variables of
+    T1 and of T2 are independent of each other)."""
+    inst = dict()
+
+    def find(side, T):
+        while not T.is_tconst() and (side, T) in inst:
+            side, T = inst[(side, T)]
+        return side, T
+
+    def occurs(v, side, T):
+        side, T = find(side, T)
+        if not T.is_tconst():
+            return (side, T) == v
+        return any(occurs(v, side, arg) for arg in T.args)
+
+    def unify(side1, A, side2, B):
+        side1, A = find(side1, A)
+        side2, B = find(side2, B)
+        if not A.is_tconst():
+            if (side1, A) == (side2, B):
+                return True
+            if occurs((side1, A), side2, B):
+                return False
+            inst[(side1, A)] = (side2, B)
+            return True
+        if not B.is_tconst():
+            return unify(side2, B, side1, A)
+        return A.name == B.name and len(A.args) == len(B.args) and \
+            all(unify(side1, x, side2, y) for x, y in zip(A.args, B.args))
+
+    return unify(0, T1, 1, T2)
+
+def term_type_vars(t):
+    """Set of type variables (schematic or not) occurring in term t."""
+    res = set()
+    def collect(T):
+        if T.is_tconst():
+            for arg in T.args:
+                collect(arg)
+        else:
+            res.add(T)
+    def rec(t):
+        if t.is_svar() or t.is_var() or t.is_const():
+            collect(t.T)
+        elif t.is_comb():
+            rec(t.fun)
+            rec(t.arg)
+        elif t.is_abs():
+            collect(t.var_T)
+            rec(t.body)
+    rec(t)
+    return res
+
 class Definition(Item):
     """Definition"""
     def __init__(self):
@@ -339,14 +393,30 @@ class Definition(Item):
             f, args = self.prop.lhs.strip_comb()
             if f != Const(self.name, self.type):
                 raise ItemException("Definition %s: wrong head of lhs" % self.name)
+            if not all(v.is_var() for v in args):
+                raise ItemException("Definition %s: arguments on lhs must be variables" % self.name)
             lhs_vars = set(v.name for v in args)
-            rhs_vars = set(v.name for v in self.prop.rhs.get_vars())
+            rhs = self.prop.rhs
             if len(lhs_vars) != len(args):
                 raise ItemException("Definition %s: variables on lhs must be distinct" % self.name)
-            if not rhs_vars.issubset(lhs_vars):
+            extra_vars = [v for v in rhs.get_vars() + rhs.get_svars() if v not in args]
+            if extra_vars:
                 raise ItemException(
                     "Definition %s: extra variables in rhs: %s" % (
-                        self.name, ", ".join(v for v in rhs_vars - lhs_vars)))
+                        self.name, ", ".join(v.name for v in extra_vars)))
+            # The following two conditions keep the definition conservative
+            type_vars = set()
+            for T in self.type.get_tsubs():
+                if not T.is_tconst():
+                    type_vars.add(T)
+            extra_tvars = term_type_vars(rhs) - type_vars
+            if extra_tvars:
+                raise ItemException(
+                    "Definition %s: extra type variables in rhs: %s" % (
+                        self.name, ", ".join(str(T) for T in extra_tvars)))
+            for c in rhs.get_consts():
+                if c.name == self.name and types_overlap(c.T, self.type):
+                    raise ItemException("Definition %s: constant occurs in its own definition" % self.name)
 
         except Exception as error:
             self.type = data['type']
